@@ -56,6 +56,7 @@ package filtering
 //@ func (d *DNSFilter) finalizeUpdate(file aghrenameio.PendingFile, flt *FilterYAML, res *rulelist.ParseResult, returned error, updated bool) (err error)
 //@   property C14, C15
 //@   requires no-replace-after-failure: updated ==> parseOK && res != nil
+//@   requires unchanged-content-not-rewritten: updated ==> res.Checksum != flt.checksum
 //@   nullable res
 //@   modifies *
 //@   callsite (github.com/AdguardTeam/AdGuardHome/internal/aghrenameio.PendingFile).CloseReplace(f) requires updated
